@@ -26,7 +26,8 @@ EFFECTS = (r"::put$|upload_shard$|upload_and_register_session_shards$|add_cas_bl
 def propagate(g, sc, name, call_pat):
     """The value returned by every call matching call_pat is consumed by `?`: after the call, no other
     (non-plumbing) call and no return is reached before a Try::branch."""
-    calls = g.blocks_calling(call_pat)
+    # the call itself, or a call of a local helper that makes it (the helper's own result then has to meet the `?`)
+    calls = list(g.blocks_calling(call_pat, summary="may"))
     if not calls:
         raise LookupError("%s: no call matching %s" % (name, call_pat))
     tb = g.blocks_calling(TRY)
@@ -143,7 +144,7 @@ def build(fns):
 def build_dry_run(fns):
     """the shard upload task: in a dry run nothing reaches the store or the shard cache (no upload, no export, no registration)"""
     cands = [f for n, f in fns.items() if re.search(r"upload_and_register_session_shards::\{closure#0\}::\{closure#\d+\}$", n)]
-    cands = [f for f in cands if modeb.CFG(f).blocks_calling(r"export_with_expiration$")]
+    cands = [f for f in cands if modeb.CFG(f).blocks_calling(r"export_with_expiration$", summary="may")]
     if len(cands) != 1:
         raise LookupError("shard upload task not found (%d candidates)" % len(cands))
     f = cands[0]
@@ -164,7 +165,7 @@ def build_dry_run(fns):
         if (src_place in places) or (opnd in places):
             if t["otherwise"]:
                 edges_true.append((b, t["otherwise"]))
-    eff = g.blocks_calling(r"upload_shard$") + g.blocks_calling(r"export_with_expiration$") + g.blocks_calling(r"register_shards$")
+    eff = g.blocks_calling(r"upload_shard$", summary="may") + g.blocks_calling(r"export_with_expiration$", summary="may") + g.blocks_calling(r"register_shards$", summary="may")
     if not edges_true:
         sc.query("shard task: the dry-run flag is branched on before anything is sent or cached", ["true"])
     else:
